@@ -1,6 +1,8 @@
 import Grexv.Props.C13
 import Grexv.Lemmas.RepExpand
 import Grexv.Lemmas.Pipeline
+import Grexv.Lemmas.PrintCountG
+import Grexv.Lemmas.RepPipeline
 
 /-!
 # C05 — repetition conversion is a notation change (S4 level)
@@ -89,5 +91,38 @@ theorem clusters_with_rep_exact (cfg : Config) (env : Env) (ws : List Str) (hrep
 /-! non-vacuity / the known finding as a theorem: the widening merge accepts a count no test case has -/
 example : (Dfa.trie [[Grapheme.ofStr [97]], [Grapheme.mk [[97]] [] 2 2, Grapheme.ofStr [98]]]).edges.map
     (fun e => (e.label.min, e.label.max)) = [(1, 2), (1, 1)] := by decide
+
+/-! ## the printed pattern of a counted grapheme -/
+
+/-- **C05 at the level of the regex, one counted grapheme, all units and counts** the text `Display for Grapheme` writes for a counted
+grapheme (no nested repetitions: what the widening merge and the top level of S4 produce) — `x{n}`, `x{m,n}`, `(?:unit){n}`,
+`(?:unit){m,n}` — between the anchors is accepted by the model of `Regex::new`, and the compiled pattern matches a string in full iff
+the string is `k` consecutive matches of the unit, `m ≤ k ≤ n`.  In particular the quantifier binds the whole unit: the printer puts
+it directly behind the text exactly when the unit is one atom other than the lone backslash (`isSingleChar_iff`: one raw character,
+one two-character escape, or one `\u{…}`), and behind a group otherwise. -/
+theorem counted_grapheme_printed_exact (cap esc : Bool) (ass : List (List Atom)) (hok : AssOK ass) (mn mx : Nat)
+    (hc : Counted mn mx) (hb : mx ≤ 1000) (i : Bool) (s : Str) :
+    ∃ P, Spec.parse ([94] ++ (R (fmtLiteral (cfgPlain cap esc) [gOf ass mn mx]) ++ [36])) = some (⟨false, false⟩, P) ∧
+      (Spec.fullMatch i P s = true ↔ ∃ k, mn ≤ k ∧ k ≤ mx ∧ Spec.powL (atomsDen i ass.flatten) k s) :=
+  counted_grapheme_exact cap esc ass hok mn mx hc hb i s
+
+/-- the decision of `Display for Grapheme` between `x{n}` and `(?:x…){n}` -/
+theorem quantifier_binds_one_atom_only (esc : Bool) (ass : List (List Atom)) (hok : AssOK ass) (mn mx : Nat) :
+    ((Expr.graphemeCharCount (Grapheme.mk (ass.map (strText esc)) [] mn mx) false == 1 ||
+      ((ass.map (strText esc)).length == 1 && isSingleEscape ((ass.map (strText esc)).headD []))) = true) ↔ SingleUnit ass :=
+  isSingleChar_iff esc ass hok mn mx
+
+/-- the hypotheses are satisfiable: `a{2,3}`, `(?:ab){2}`, `\d{4}` -/
+example : AssOK [[Atom.chr 97]] ∧ Counted 2 3 ∧ AssOK [[Atom.chr 97], [Atom.chr 98]] ∧ Counted 2 2 ∧
+    AssOK [[Atom.cls .digit false]] ∧ Counted 4 4 := by
+  refine ⟨⟨by simp, ?_⟩, Or.inl (by decide), ⟨by simp, ?_⟩, Or.inr ⟨rfl, by decide⟩, ⟨by simp, ?_⟩, Or.inr ⟨rfl, by decide⟩⟩
+  · intro as has; simp at has; subst has
+    exact ⟨by simp, Or.inr (by intro a ha; simp at ha; subst ha; exact ⟨by decide, Or.inl (by decide)⟩)⟩
+  · intro as has; simp at has
+    rcases has with rfl | rfl
+    · exact ⟨by simp, Or.inr (by intro a ha; simp at ha; subst ha; exact ⟨by decide, Or.inl (by decide)⟩)⟩
+    · exact ⟨by simp, Or.inr (by intro a ha; simp at ha; subst ha; exact ⟨by decide, Or.inl (by decide)⟩)⟩
+  · intro as has; simp at has; subst has
+    exact ⟨by simp, Or.inr (by intro a ha; simp at ha; subst ha; trivial)⟩
 
 end Grexv.Props.C05
